@@ -47,7 +47,7 @@ func VerifyAttestationSignatures(
 	publicKeys []types.Attester,
 	signatureThreshold uint32,
 ) error {
-	if uint32(len(attestation)) != types.SignatureLength*signatureThreshold {
+	if uint64(len(attestation)) != types.SignatureLength*uint64(signatureThreshold) {
 		return sdkerrors.Wrap(types.ErrSignatureVerification, "invalid attestation length")
 	}
 
